@@ -24,7 +24,14 @@ class StreamOutputStream(OutputStream):
         if self.is_closed():
             raise io.UnsupportedOperation("Cannot write to a closed input.")
 
-        self._stream.write(string)
+        try:
+            self._stream.write(string)
+        except UnicodeEncodeError:
+            # The stream cannot represent every character: replace those it
+            # cannot rather than failing (and losing the rest of the output)
+            encoding = getattr(self._stream, "encoding", None) or "ascii"
+            self._stream.write(string.encode(encoding, "replace").decode(encoding))
+
         self._stream.flush()
 
     def flush(self):  # type: () -> None
